@@ -34,6 +34,8 @@ THEOREMS = [
     "OQuPyVerif.Props.C17.flag_tests_sound",
     "OQuPyVerif.Props.C17.unwind_never_closes",
     "OQuPyVerif.Props.C17.exception_interrupted_never_clean",
+    "OQuPyVerif.Props.C17.flag_cleared_only_by_close",
+    "OQuPyVerif.Props.C17.compute_caps_keeps_flag",
 ]
 
 VLEN = ["initial_tensor_data", "initial_tensor_shape", "mpo_tensors_data", "mpo_tensors_shape",
@@ -76,6 +78,8 @@ def enc_cmds(calls):
     for k, step, t in calls:
         if k in ("N", "D"):              # assignment to .name / .description (t: text or None)
             out.append(k + "@" + ("None" if t is None else hexs(t)))
+        elif k == "K":                   # a compute_caps() call of the file-backed object returned
+            out.append("K@None")
         else:
             out.append(("I" if k == "I" else "%s%d" % (k, step)) + "@" + enc_tensor(t))
     return "|".join(out)
@@ -250,6 +254,14 @@ class ApiRecorder:
         wrap("set_initial_tensor", "I")
         wrap("set_mpo_tensor", "M")
         wrap("set_cap_tensor", "C")
+        o_caps = cls.compute_caps
+
+        def caps(self):
+            r = o_caps(self)
+            rec.calls.append(("K", 0, None))
+            return r
+        self.saved.append((cls, "compute_caps", o_caps))
+        cls.compute_caps = caps
         return self
 
     def __exit__(self, *a):
@@ -276,31 +288,42 @@ def tensor_of(spec):
 
 
 def gen_pt_spec(rng, length=None, rank=None, max_bond=4, dim=2, with_dt=None, with_tr=None,
-                named=None):
-    """hand-built PT: random small dyadic entries (exact in binary64)"""
+                named=None, caps="computed"):
+    """hand-built PT: random small dyadic entries (exact in binary64).
+    with_tr: False / True ('both') / 'in' / 'out' (exactly one transform);
+    caps: 'computed' (compute_caps()), 'custom' (user-defined cap vectors), 'none' (no caps)"""
     n = length if length is not None else rng.randrange(1, 7)
     rank = rank if rank is not None else rng.choice([3, 4])
     bonds = [1] + [rng.randrange(1, max_bond + 1) for _ in range(n - 1)] + [1]
     rho = dim * dim
     with_tr = rng.random() < 0.3 if with_tr is None else with_tr
+    if with_tr is True:
+        with_tr = "both"
     tin = tout = None
     legs_in, legs_out = rho, rho
     if with_tr and rank == 4:
-        legs_in = rng.choice([rho, 3])
-        legs_out = rng.choice([rho, 3])
-        tin = tensor_spec(_rand_arr(rng, (rho, legs_in)))
-        tout = tensor_spec(_rand_arr(rng, (legs_out, rho)))
+        if with_tr in ("both", "in"):
+            legs_in = rng.choice([rho, 3])
+            tin = tensor_spec(_rand_arr(rng, (rho, legs_in)))
+        if with_tr in ("both", "out"):
+            legs_out = rng.choice([rho, 3])
+            tout = tensor_spec(_rand_arr(rng, (legs_out, rho)))
     mpos = []
     for k in range(n):
         shape = (bonds[k], bonds[k + 1], rho) if rank == 3 else (bonds[k], bonds[k + 1], legs_in, legs_out)
         mpos.append(tensor_spec(_rand_arr(rng, shape)))
     with_dt = rng.random() < 0.6 if with_dt is None else with_dt
     named = rng.random() < 0.5 if named is None else named
-    return {"hs": dim, "dt": rng.choice([0.1, 0.25, 0.04]) if with_dt else None,
+    spec = {"hs": dim, "dt": rng.choice([0.1, 0.25, 0.04]) if with_dt else None,
             "tin": tin, "tout": tout,
             "name": rng.choice(["pt A", "spin-boson", "x"]) if named else None,
             "descr": rng.choice(["made by the harness", "δ test", "line one"]) if named else None,
             "mpos": mpos, "rank": rank}
+    if caps == "custom":
+        spec["caps"] = [tensor_spec(_rand_arr(rng, (b,))) for b in bonds]
+    elif caps == "none":
+        spec["caps"] = []
+    return spec
 
 
 def _rand_arr(rng, shape):
@@ -317,7 +340,11 @@ def build_simple(spec):
         transform_out=tensor_of(spec["tout"]), name=spec["name"], description=spec["descr"])
     for k, m in enumerate(spec["mpos"]):
         pt.set_mpo_tensor(k, tensor_of(m))
-    pt.compute_caps()
+    if spec.get("caps") is None:
+        pt.compute_caps()
+    else:
+        for k, c in enumerate(spec["caps"]):
+            pt.set_cap_tensor(k, tensor_of(c))
     return pt
 
 
@@ -361,6 +388,21 @@ def run_scenario(sc, path):
             transform_out=tensor_of(spec["tout"]), name=spec["name"], description=spec["descr"])
         for k in reversed(range(len(spec["mpos"]))):
             fpt.set_mpo_tensor(k, tensor_of(spec["mpos"][k]))
+        fpt.compute_caps()
+        fpt.close()
+    elif kind == "filept2":
+        # as above, but the object stays open after compute_caps() and is written to again:
+        # the tensors of a second process tensor are stored in it and the caps recomputed
+        spec, spec2 = sc["pt"], sc["pt2"]
+        fpt = oqupy.FileProcessTensor(
+            mode="overwrite" if sc["ovw"] else "write", filename=path,
+            hilbert_space_dimension=spec["hs"], dt=spec["dt"], transform_in=tensor_of(spec["tin"]),
+            transform_out=tensor_of(spec["tout"]), name=spec["name"], description=spec["descr"])
+        for k in reversed(range(len(spec["mpos"]))):
+            fpt.set_mpo_tensor(k, tensor_of(spec["mpos"][k]))
+        fpt.compute_caps()
+        for k in reversed(range(len(spec2["mpos"]))):
+            fpt.set_mpo_tensor(k, tensor_of(spec2["mpos"][k]))
         fpt.compute_caps()
         fpt.close()
     elif kind == "pttempo":
@@ -430,7 +472,7 @@ def complete_content(sc, path):
         want_n = sc["steps"]
         want = None
     else:
-        want = [tensor_of(m) for m in sc["pt"]["mpos"]]
+        want = [tensor_of(m) for m in sc.get("pt2", sc["pt"])["mpos"]]
         want_n = len(want)
     try:
         got = content_of(path)
@@ -480,6 +522,13 @@ def _child(sc, path, k_kill, variant, logfd):
                 os._exit(0)
         tr = H5Tracer(tick)
         propagated = None
+        import oqupy.process_tensor as P
+        o_close = P.FileProcessTensor.close
+
+        def marked_close(self):
+            os.write(logfd, b"MARK:close\n")
+            return o_close(self)
+        P.FileProcessTensor.close = marked_close
         with tr:
             with warnings.catch_warnings():
                 warnings.simplefilter("ignore")
@@ -507,7 +556,17 @@ def _fork_run(sc, path, k_kill, variant, logpath):
         _child(sc, path, k_kill, variant, fd)
     os.close(fd)
     _, status = os.waitpid(pid, 0)
-    log = open(logpath).read().splitlines()
+    raw = open(logpath).read().splitlines()
+    log = [l for l in raw if not l.startswith("MARK:")]
+    # number of operations issued before the (last) close() call started
+    close_at = None
+    n = 0
+    for l in raw:
+        if l == "MARK:close":
+            close_at = n
+        elif not l.startswith(("END:", "EXC:")):
+            n += 1
+    _fork_run.close_at = close_at
     return status, log
 
 
@@ -540,6 +599,7 @@ def runner_main(spec_path, out_path):
         out["prior_dump"] = dump_file(path)
         status, log = _fork_run(sc, path, 0, "exit", logp)
         out["full_log"] = log
+        out["close_at"] = _fork_run.close_at
         out["full_dump_forked"] = dump_file(path)
         nops = len([l for l in log if not l.startswith(("EXC:", "END:"))])
         ks = sc.get("ks") or list(range(1, nops + 1))
@@ -635,9 +695,13 @@ def scenarios(tier, rng):
                 "variants": ["exit", "flush", "raise", "interrupt"]})
     gen.append({"kind": "export", "pt": gen_pt_spec(rng, length=1, rank=4, max_bond=2, with_dt=False,
                                                     with_tr=True, named=False),
-                "ovw": True, "prior": "pt", "variants": ["exit", "flush", "interrupt"]})
+                "ovw": True, "prior": "pt", "variants": ["flush", "interrupt"]})
     gen.append({"kind": "filept", "pt": gen_pt_spec(rng, length=3, rank=4, max_bond=2, with_tr=False),
-                "ovw": True, "prior": "missing", "variants": ["exit", "flush", "raise"]})
+                "ovw": True, "prior": "missing", "variants": ["flush", "raise"]})
+    two = gen_pt_spec(rng, length=2, rank=3, max_bond=2, with_tr=False)
+    gen.append({"kind": "filept2", "pt": two,
+                "pt2": gen_pt_spec(rng, length=2, rank=3, max_bond=2, with_tr=False),
+                "ovw": False, "prior": "missing", "variants": ["flush"]})
     # a named file that must not be overwritten: the object is not entitled to remove it
     gen.append({"kind": "pttempo", "coupling": "z", "steps": 2, "ovw": False, "prior": "missing",
                 "variants": ["flush", "interrupt"]})
@@ -682,6 +746,8 @@ def model_line_for(sc, result, crash):
 
 def interrupted_before_close(result):
     """number of operations issued before close() starts (from the complete op log)"""
+    if result.get("close_at") is not None:
+        return result["close_at"]
     log = result["full_log"]
     n = len(log)
     # close() issues [attr:writing=False,] fclose as its last operations
